@@ -6,7 +6,7 @@ import sys
 from pathlib import Path
 from typing import NoReturn, List, Tuple
 
-PLAN_COMPONENT_REGEX = r"\d: ([\w+\s?-]+)\n"
+PLAN_COMPONENT_REGEX = r"\d: ([\w+ \t?-]+)\r?\n"
 VALID_PLAN_FOUND_PATTERN = "ff: found legal plan as follows"
 NO_SOLUTION_OPTIONS = [
     "problem proven unsolvable.",
